@@ -907,6 +907,7 @@ func (w *l2world) exec1(op *sop, stats map[string]int) bool {
 		stats[op.kind]++
 	case "refresh":
 		_, err := c.db.Exec("select s3db_refresh(?)", c.table)
+		w.lastFailed = err != nil
 		out.s(";")
 		out.s(classifyErr(err))
 		var mo tw
@@ -1139,7 +1140,11 @@ func runL2History(g *gen, prof l2profile, nops int, stats map[string]int) (strin
 	var keys []sval
 	nk := 3 + g.r.Intn(6)
 	for i := 0; i < nk; i++ {
-		if prof.allClasses && g.r.Intn(2) == 0 {
+		if prof.allClasses && epn == 0 && g.r.Intn(5) == 0 {
+			// an integral REAL key (2.0): it is the key 2, and it keeps its own storage class
+			// (single-node trees only: finding F-C07-2 files the two spellings at different heights)
+			keys = append(keys, sval{tag: 'R', bits: math.Float64bits(float64(g.r.Intn(12)))})
+		} else if prof.allClasses && g.r.Intn(2) == 0 {
 			keys = append(keys, keyPoolAll[g.r.Intn(len(keyPoolAll))])
 		} else {
 			keys = append(keys, sval{tag: 'I', i: int64(g.r.Intn(12))})
@@ -1174,6 +1179,9 @@ func runL2History(g *gen, prof l2profile, nops int, stats map[string]int) (strin
 				if g.r.Intn(3) == 0 {
 					op.flt = &l2fault{on: []string{"Pm", "Dc"}[g.r.Intn(2)], k: 0}
 				}
+			case "refresh":
+				// a refresh that fails on a storage fault leaves the table as it was: usable, same rows
+				op.flt = &l2fault{on: []string{"L", "G", "G"}[g.r.Intn(3)], k: g.r.Intn(2)}
 			case "vacuum":
 				// the first DELETE of a node, or of a superseded version, fails: the vacuum reports
 				// an error, the connection and the table stay usable and show the same rows
@@ -1423,7 +1431,7 @@ func runL2History(g *gen, prof l2profile, nops int, stats map[string]int) (strin
 				intx[c] = false
 				autoTx[c] = false
 			}
-		case ch < 92 && nconn > 1:
+		case ch < 92 && (nconn > 1 || prof.faults):
 			if !intx[c] {
 				do(&sop{kind: "refresh", c: c})
 			}
@@ -1705,6 +1713,11 @@ func runL2(seed int64, n int, dir string, profName string) error {
 		fmt.Fprintf(cw, "%d probe invalid-utf8-text-is-refused\n", n+1)
 		fmt.Fprintf(iw, "%d %s\n", n+1, probeInvalidText())
 		stats["probe_invalid_text"]++
+	}
+	if profName == "multi" || profName == "conn" {
+		fmt.Fprintf(cw, "%d probe subsecond-write-time\n", n+1)
+		fmt.Fprintf(iw, "%d %s\n", n+1, probeSubsecondWriteTime())
+		stats["probe_subsecond"]++
 	}
 	if profName == "tx" {
 		for k := 0; k < 3; k++ {
